@@ -52,6 +52,15 @@ def _class_const(path, cls, name):
     raise core.Undecided('anchor-moved: %s.%s not found in %s' % (cls, name, path))
 
 
+def _makedirs_model(eng, st, args, kw, node):
+    """makedirs in the missing-parent fallback of a copy.  Between the failed create and this call other copies of the same
+    transfer run (awaits in between), so the directory may exist by now: without exist_ok=True the call then raises
+    FileExistsError - not a documented error of the copy tool, and the file is not copied although nothing is wrong."""
+    ok = kw.get('exist_ok', args[1] if len(args) > 1 else False)
+    eng.oblige(st, 'fallback-makedirs-tolerates-a-directory-created-meanwhile', eng.truthy(ok), kind='vc')
+    return None
+
+
 def _is_method(v, name):
     return isinstance(v, tuple) and len(v) == 3 and v[0] == 'boundmethod' and isinstance(v[1], SRecord) and v[2] == name
 
@@ -145,8 +154,7 @@ def multi_part_main():
         st.env['n_gather'] = st.env['n_gather'] + 1
         return eng.call_localdef(fn[1], call, st, allow_async=True)
 
-    def makedirs(eng, st, args, kw, node):
-        return None
+    makedirs = _makedirs_model
 
     return Contract(
         path=COPIER,
@@ -350,7 +358,7 @@ def copy_file(buffer_size):
         calls={
             'destfile.endswith': lambda eng, st, args, kw, node: st.env['ENDS_SLASH'],
             'with:self.xfer_sema.acquire_manager': sem, 'with:self.router_fs.open': with_model(open_enter, plain_exit), 'self.router_fs.create': create,
-            'self.router_fs.makedirs': nothing, 'os.path.dirname': lambda eng, st, args, kw, node: z3.Const('dirname', pyvc.U), 'with:dest_cm': with_model(dest_enter, plain_exit),
+            'self.router_fs.makedirs': _makedirs_model, 'os.path.dirname': lambda eng, st, args, kw, node: z3.Const('dirname', pyvc.U), 'with:dest_cm': with_model(dest_enter, plain_exit),
             'srcf.read': read, 'destf.write': write, 'source_report.finish_bytes': nothing,
         },
         ghost_init={'n_open': '0', 'n_created': '0', 'DEST_CM': 'NOTHING', 'RPOS': '0 - 1', 'DPOS': '0 - 2', 'LAST_B': 'NOTHING', 'LAST_OFF': '0 - 1', 'LAST_LEN': '0', 'n_writes': '0', 'last_exc': 'NOTHING'},
@@ -403,7 +411,30 @@ def _local_models():
             return h
         if isinstance(fn, tuple) and fn and fn[0] == 'boundmethod' and fn[2] in ('close', 'flush'):
             return None
+        if isinstance(fn, pyvc.SDotted) and fn.name == 'os.open':
+            return os_open(eng, st, args[2:], kw, node)
+        if isinstance(fn, pyvc.SDotted) and fn.name == 'os.close':
+            return None
         raise core.Undecided('blocking_to_async of %r' % (fn,))
+
+    def os_open(eng, st, args, kw, node):
+        # os.open(path, flags[, mode]): assumed POSIX contract - the content is kept unless O_TRUNC is among the flags
+        import os as _os
+
+        flags = args[1]
+        if not isinstance(flags, int):
+            raise core.Undecided('os.open with computed flags')
+        st.env['OPEN_PATH'] = to_z3(args[0], 'U')
+        st.env['OPEN_MODE_WRITABLE'] = bool(flags & (_os.O_WRONLY | _os.O_RDWR))
+        st.env['n_open'] = st.env['n_open'] + 1
+        h = z3.Const(pyvc.fresh_name('fd'), pyvc.U)
+        st.env['HANDLE'] = h
+        if flags & _os.O_TRUNC:
+            st.env['FLEN'] = z3.IntVal(0)
+        elif flags & _os.O_CREAT:
+            st.env['FLEN'] = z3.If(st.env['FLEN'] < 0, 0, st.env['FLEN'])
+        st.env['POS'] = z3.IntVal(0)
+        return h
 
     def seek(eng, st, args, kw, node):
         st.env['POS'] = eng.num(args[0])
@@ -415,13 +446,13 @@ def _local_models():
         return z3.Const(pyvc.fresh_name('writable_stream'), pyvc.U)
 
     ghost = {'FLEN': 'FLEN0', 'POS': '0 - 1', 'OPEN_PATH': 'NOTHING', 'OPEN_MODE_WRITABLE': 'False', 'n_open': '0', 'n_seek': '0', 'HANDLE': 'NOTHING', 'WRAPPED': 'NOTHING'}
-    return path_of, b2a, seek, wrap, ghost
+    return path_of, b2a, seek, wrap, ghost, os_open
 
 
 def local_contracts():
-    path_of, b2a, seek, wrap, ghost = _local_models()
+    path_of, b2a, seek, wrap, ghost, os_open = _local_models()
     cast = lambda eng, st, args, kw, node: args[1]  # noqa: E731
-    base_calls = {'self._get_path': path_of, 'blocking_to_async': b2a, 'blocking_writable_stream_to_async': wrap, 'cast': cast}
+    base_calls = {'self._get_path': path_of, 'blocking_to_async': b2a, 'blocking_writable_stream_to_async': wrap, 'cast': cast, 'os.open': os_open, 'os.close': lambda eng, st, args, kw, node: None}
     create = Contract(
         path=LOCAL, qualname='LocalAsyncFS.create', types={'url': 'U', 'retry_writes': 'bool', '._thread_pool': 'U'}, extra_inputs={'FLEN0': 'int'}, requires=['FLEN0 >= 0 - 1'],
         consts={'NOTHING': NONE_U}, calls=dict(base_calls), ghost_init=dict(ghost), spec_funcs={'path_of': (['U'], 'U')},
@@ -698,6 +729,12 @@ def router_contracts():
         out.append((Contract(path=ROUTER, qualname='RouterAsyncFS.' + q, types=types, consts={'NOTHING': NONE_U}, calls={'self._get_fs': get_fs, 'fs.' + q: fwd(names)},
                              ghost_init={'n_fwd': '0', 'FWD': 'NOTHING'}, ensures=[('one-forwarded-call-whose-result-is-returned', 'n_fwd == 1 and result == FWD')], raises={}, canaries=[('never-forwards', 'n_fwd == 0')]), 'router-' + q))
     return out
+
+
+def native_witness(ctx):
+    import os
+    script = open(os.path.join(os.path.dirname(__file__), 'native', 'c22_replay.py')).read()
+    return core.run_native(script, {}, timeout=300)
 
 
 def build(ctx):
